@@ -33,7 +33,9 @@ from sexp import Sym, dumps
 
 PROP = 'C03'
 RULE = ('random schemas (1-4 classes, 0-3 associations with 0-3 key attributes of every core type, shared referential '
-        'attributes, reflexive and phrased associations, identifiers, classes inferred from INSERTs) populated from '
+        'attributes, reflexive and phrased associations, several associations to one referred class over the same '
+        'identifying attributes listed in different orders, type names spelled in any letter case attribute by '
+        'attribute, identifiers, classes inferred from INSERTs) populated from '
         'a pool of <= 4 values per type; per population: ALL permutations of the statements when there are <= 7 '
         '(quick: <= 6, and <= 7 on a sample), 50 random permutations otherwise; random partitions into 1-4 input '
         'calls / files / directory chain / wide directory / zip members / one file through the bridgepoint loader; '
@@ -42,7 +44,8 @@ RULE = ('random schemas (1-4 classes, 0-3 associations with 0-3 key attributes o
         'unlinked (null, dangling) candidate pair; distinct = distinct statement text')
 EXHAUSTIVE = {'quick': False, 'thorough': False}
 ASSUMPTIONS = [
-    'kinds and attribute names are spelled with one letter case throughout (case folding is property C10)',
+    'kinds and attribute NAMES are spelled with one letter case throughout (case folding of names is property C10); '
+    'type names are spelled in any letter case',
     'corresponding referential / identifying attributes have the same declared type (Python compares 1 == 1.0 == True)',
     'positional INSERTs carry a value for every declared attribute (missing ones would take generator-drawn defaults, C19)',
     'REAL values are dyadic rationals with at most six fraction digits (float() and %f are exact on them)',
@@ -80,7 +83,7 @@ def setup(ctx):
     l.input('CREATE TABLE W (a INTEGER);')
     l.build_metamodel()
     m = bp.ModelLoader(load_globals=False).build_metamodel()
-    clash = [k for k in G.KINDS + ['KX', 'KY'] if k in m.metaclasses]
+    clash = [k for k in G.KINDS + ['KX', 'KY', 'KT', 'KX1', 'KX2'] if k in m.metaclasses]
     if clash:
         raise RuntimeError('generated kinds clash with the ooaofooa schema: %s' % clash)
 
@@ -176,6 +179,7 @@ def generate(ctx):
     n_big = ctx.pick(60, 600)
     n_api = ctx.pick(260, 3000)
     n_err = ctx.pick(40, 300)
+    n_shared = ctx.pick(60, 600)
     all_routes = ['files', 'bp-file', 'bp-dir', 'bp-dirwide', 'bp-zip', 'keep-order']
     i = 0
     # small populations: every permutation
@@ -219,6 +223,14 @@ def generate(ctx):
             continue
         yield {'fam': 'api-' + mode, 'stmts': stmts,
                'variants': _fix(r, stmts, _variants(r, len(stmts), 0, 2, ['keep-order'])), 'api': True}
+    # several associations reach one referred class over the same identifying attributes listed in different orders
+    # (populate_connections shares one index per referred class and SET of key attribute names)
+    for j in range(n_shared):
+        r = rng.fork('shared', j)
+        stmts = G.gen_shared_index_population(r)
+        yield {'fam': 'shared-index', 'stmts': stmts,
+               'variants': _fix(r, stmts, _variants(r, len(stmts), 0, 8, ['keep-order'] + r.sample(all_routes[:5], 1))),
+               'api': j % 2 == 0}
     for j in range(n_err):
         r = rng.fork('err', j)
         stmts, kind = _error_case(r)
@@ -748,7 +760,7 @@ def _api_modelled(case):
     """the API / clone routes are compared with the Lean model on chain-free schemas (the model does not
     read identifying attributes that are themselves referential)"""
     stmts = case['stmts']
-    return bool(case.get('api')) and case['fam'] != 'error' and not has_chain(stmts) and \
+    return bool(case.get('api')) and case['fam'] != 'error' and \
         all(G.class_of(stmts, s['kind']) for s in stmts if s['t'] == 'insert')
 
 
